@@ -132,7 +132,7 @@ def reset_antlr_caches():
 
 def shards(tier, seed):
     q = tier == "quick"
-    return [{"seed": s, "pool": 12 if q else 60, "schedules": 4 if q else 40, "tier": tier} for s in shard_seeds(seed, 16, "C12")]
+    return [{"seed": s, "pool": 18 if q else 60, "schedules": 4 if q else 40, "tier": tier} for s in shard_seeds(seed, 16, "C12")]
 
 
 def gen_schedule(rnd, pool):
@@ -151,7 +151,12 @@ def gen_schedule(rnd, pool):
         assign = [list(one) for _ in range(nt)]
     else:
         assign = [[rnd.choice(ids) for _ in range(per)] for _ in range(nt)]
-    if big and style in ("mixed", "decompile-only") and rnd.random() < 0.5:
+    deep = [i for i in range(len(pool)) if pool[i].get("cls") == "deep-nesting" and pool[i].get("keep")]
+    if deep and style in ("mixed", "compile-only") and rnd.random() < 0.35:
+        # one thread compiles a deeply nested script (twice) while the others start and finish small calls all the time
+        assign = [[deep[0], deep[0]]] + [[rnd.choice(ids) for _ in range(6)] for _ in range(min(nt, 5) - 1)]
+        until = True
+    elif big and style in ("mixed", "decompile-only") and rnd.random() < 0.5:
         # one thread works on a script with hundreds of routines while the others do small things
         dec = [i for i in ids if pool[i]["k"] != "compile"] or ids
         assign = [[big[0]]] + [[rnd.choice(dec) for _ in range(6)] for _ in range(min(nt, 5) - 1)]
